@@ -315,7 +315,7 @@ def shrink(hist, fresh_of, what):
 def run(ctx, deep=False):
     _init_parent()
     rng = ctx.rng
-    nh = {"quick": 48, "thorough": 1200}[ctx.tier] * (3 if deep else 1)
+    nh = {"quick": 160, "thorough": 2400}[ctx.tier] * (3 if deep else 1)
     hists = [gen_history(rng, with_mgmt=(i % 4 == 0)) for i in range(nh)]
     if ctx.tier == "thorough":
         hists.append([["lemmata", "en"]])
